@@ -96,8 +96,10 @@ func (k Keeper) Authenticate(ctx sdk.Context, sourceChain, destinationChain, por
 
 // ConvWildcardToRegular convert wildcard to regular
 func ConvWildcardToRegular(wildcard string) string {
-	regular := strings.Replace(wildcard, ".", "\\.", -1)
-	regular = strings.Replace(regular, "*", ".*", -1)
+	// every character of a rule other than the wildcard is a literal: the
+	// identifier alphabet contains regular expression operators (+ [ ] - < > .)
+	regular := regexp.QuoteMeta(wildcard)
+	regular = strings.Replace(regular, "\\*", "[^,]*", -1)
 	regular = "^" + regular + "$"
 	return regular
 }
